@@ -4,9 +4,11 @@
 // prints coq/Generated/HashFields.v:
 //   - options_fields     : every field of struct index.Options (declaration order) with its Go type
 //   - hash_struct_fields : HashOptions() composite literal: hash-struct field <- Options field
-//   - hash_writes        : GetHash(): every Options field whose value reaches a call argument
-//                          (hasher.Write / fmt.Appendf / Fprintf ...), in source order, with the format
-//                          verb ("raw" when converted directly) and whether the write is guarded by an `if`
+//   - hash_prog          : GetHash(), read statement by statement: one hitem (Model/HashProg.v) per place where an
+//                          Options field is fed into the hasher: field, format, if-guard, and HOW the value is written
+//                          (FValue: the value itself / FSortedEntries: map entries in key order / FUnknown: anything
+//                          else, e.g. a sorted copy, a derived value, an unordered map range, an in-place mutation);
+//                          hash_prog_unrecognised: statements that fit no recognised shape
 //   - read_versions, default_trigram_max (from SetDefaults), version constants
 // Only the standard library is used (no type checking needed: the functions are matched by name/shape;
 // an unrecognised shape is an error, which the check reports).
@@ -21,6 +23,7 @@ import (
 	"os"
 	"path/filepath"
 	"regexp"
+	"sort"
 	"strconv"
 	"strings"
 )
@@ -36,6 +39,12 @@ func exprStr(e ast.Expr) string {
 	var sb strings.Builder
 	printer.Fprint(&sb, fset, e)
 	return sb.String()
+}
+
+func exprStr2(n ast.Node) string {
+	var sb strings.Builder
+	printer.Fprint(&sb, fset, n)
+	return strings.Join(strings.Fields(sb.String()), " ")
 }
 
 func q(s string) string { return "\"" + strings.ReplaceAll(s, "\"", "\"\"") + "\"" }
@@ -165,6 +174,7 @@ func main() {
 	ho := method("HashOptions")
 	horecv := recvName(ho)
 	hsrc := map[string][]string{} // hash-struct field -> Options fields mentioned in its value
+	hexact := map[string]string{} // hash-struct field -> Options field, when the value is exactly `o.Field`
 	var hpairs [][2]string
 	ast.Inspect(ho.Body, func(n ast.Node) bool {
 		cl, ok := n.(*ast.CompositeLit)
@@ -177,6 +187,11 @@ func main() {
 				die("HashOptions literal is not keyed")
 			}
 			k := exprStr(kv.Key)
+			if se, ok := kv.Value.(*ast.SelectorExpr); ok {
+				if id, ok := se.X.(*ast.Ident); ok && id.Name == horecv && isOpt[se.Sel.Name] {
+					hexact[k] = se.Sel.Name
+				}
+			}
 			ast.Inspect(kv.Value, func(m ast.Node) bool {
 				se, ok := m.(*ast.SelectorExpr)
 				if ok {
@@ -194,130 +209,344 @@ func main() {
 		die("HashOptions(): no `HashOptions{field: o.Field}` literal recognised")
 	}
 
-	// ---- GetHash(): variables bound to o.HashOptions(); every use of h.<f> (or o.<F>) inside a call argument
+	// ---- GetHash(): a statement-level reading of the function body. Every statement must have one of the
+	// recognised shapes; what is not recognised is reported (hash_prog_unrecognised / FUnknown / GUnknown) and
+	// fails the proof obligation prog_ok.
 	gh := method("GetHash")
 	ghrecv := recvName(gh)
-	hvars := map[string]bool{}
-	ast.Inspect(gh.Body, func(n ast.Node) bool {
-		as, ok := n.(*ast.AssignStmt)
-		if !ok {
-			return true
-		}
-		for i, r := range as.Rhs {
-			if ce, ok := r.(*ast.CallExpr); ok && strings.HasSuffix(exprStr(ce.Fun), ".HashOptions") && i < len(as.Lhs) {
-				hvars[exprStr(as.Lhs[i])] = true
-			}
-		}
-		return true
-	})
-	type write struct {
-		field, verb string
-		guarded     bool
-		guard       string
+	hvars := map[string]bool{}      // idents bound to o.HashOptions()
+	hasherVars := map[string]bool{} // idents bound to sha1.New()
+	type local struct {
+		kind   string // "sortedKeys" | "derived"
+		fields []string
+		src    string
 	}
-	var writes []write
-	seen := map[string]bool{}
-	var walk func(n ast.Node, guarded bool, guard string)
-	visitCall := func(ce *ast.CallExpr, guarded bool, guard string) {
-		verb := "raw"
-		for _, a := range ce.Args {
-			if bl, ok := a.(*ast.BasicLit); ok && bl.Kind == token.STRING {
-				if s, err := strconv.Unquote(bl.Value); err == nil && strings.Contains(s, "%") {
-					verb = s
+	locals := map[string]local{}
+	tainted := map[string]string{} // Options field -> source of the statement that may have altered what is hashed
+	var unrecognised []string
+	type item struct{ field, verb, guard, form string }
+	var items []item
+	type guardInfo struct{ field, coq, src string }
+
+	// exactField: e is exactly h.<f> (with HashOptions filling f from exactly one Options field, untransformed) or o.<F>
+	exactField := func(e ast.Expr) (string, bool) {
+		se, ok := e.(*ast.SelectorExpr)
+		if !ok {
+			return "", false
+		}
+		id, ok := se.X.(*ast.Ident)
+		if !ok {
+			return "", false
+		}
+		if hvars[id.Name] {
+			if f, ok := hexact[se.Sel.Name]; ok {
+				return f, true
+			}
+			return "", false
+		}
+		if id.Name == ghrecv && isOpt[se.Sel.Name] {
+			return se.Sel.Name, true
+		}
+		return "", false
+	}
+	// mentions: every Options field whose value can flow into e
+	mentions := func(n ast.Node) []string {
+		var out []string
+		seen := map[string]bool{}
+		add := func(fs ...string) {
+			for _, f := range fs {
+				if !seen[f] {
+					seen[f] = true
+					out = append(out, f)
 				}
 			}
 		}
-		for _, a := range ce.Args {
-			ast.Inspect(a, func(m ast.Node) bool {
-				if inner, ok := m.(*ast.CallExpr); ok && inner != ce {
-					// nested call (fmt.Appendf inside hasher.Write): handled by its own visit
-					return false
-				}
-				se, ok := m.(*ast.SelectorExpr)
-				if !ok {
-					return true
-				}
-				id, ok := se.X.(*ast.Ident)
-				if !ok {
-					return true
-				}
-				var fields []string
-				if hvars[id.Name] {
-					fields = hsrc[se.Sel.Name]
-					if len(fields) == 0 {
-						die("GetHash uses %s.%s which HashOptions() does not fill from an Options field", id.Name, se.Sel.Name)
+		if n == nil {
+			return nil
+		}
+		ast.Inspect(n, func(m ast.Node) bool {
+			switch x := m.(type) {
+			case *ast.SelectorExpr:
+				if id, ok := x.X.(*ast.Ident); ok {
+					if hvars[id.Name] {
+						add(hsrc[x.Sel.Name]...)
+						return false
 					}
-				} else if id.Name == ghrecv && isOpt[se.Sel.Name] {
-					fields = []string{se.Sel.Name}
+					if id.Name == ghrecv && isOpt[x.Sel.Name] {
+						add(x.Sel.Name)
+						return false
+					}
 				}
-				for _, f := range fields {
-					if !seen[f] {
-						seen[f] = true
-						writes = append(writes, write{f, verb, guarded, guard})
+			case *ast.Ident:
+				if l, ok := locals[x.Name]; ok {
+					add(l.fields...)
+				}
+				if hvars[x.Name] || x.Name == ghrecv { // the whole struct passed somewhere
+					for _, f := range optFields {
+						if x.Name == ghrecv {
+							add(f[0])
+						}
+					}
+					if hvars[x.Name] {
+						for _, p := range hpairs {
+							add(p[1])
+						}
+					}
+				}
+			}
+			return true
+		})
+		return out
+	}
+	taint := func(n ast.Node, src string) bool {
+		fs := mentions(n)
+		for _, f := range fs {
+			if _, ok := tainted[f]; !ok {
+				tainted[f] = src
+			}
+		}
+		return len(fs) > 0
+	}
+	guardOf := func(gs []guardInfo, field string) string {
+		switch {
+		case len(gs) == 0:
+			return "GNone"
+		case len(gs) == 1 && gs[0].field == field && gs[0].coq != "":
+			return gs[0].coq
+		}
+		var srcs []string
+		for _, g := range gs {
+			srcs = append(srcs, g.src)
+		}
+		return "(GUnknown " + q(strings.Join(srcs, " && ")) + ")"
+	}
+	isCall := func(e ast.Expr, fun string) (*ast.CallExpr, bool) {
+		ce, ok := e.(*ast.CallExpr)
+		if !ok || exprStr(ce.Fun) != fun {
+			return nil, false
+		}
+		return ce, true
+	}
+	strLit := func(e ast.Expr) (string, bool) {
+		bl, ok := e.(*ast.BasicLit)
+		if !ok || bl.Kind != token.STRING {
+			return "", false
+		}
+		s, err := strconv.Unquote(bl.Value)
+		return s, err == nil
+	}
+	// fmtWrite: a formatted write of args with format verb
+	fmtWrite := func(verb string, args []ast.Expr, gs []guardInfo, src string) {
+		if len(args) == 1 {
+			if f, ok := exactField(args[0]); ok {
+				items = append(items, item{f, verb, guardOf(gs, f), "FValue"})
+				return
+			}
+		}
+		any := false
+		for _, a := range args {
+			ast.Inspect(a, func(m ast.Node) bool {
+				if id, ok := m.(*ast.Ident); ok {
+					if l, ok := locals[id.Name]; ok && !strings.Contains(src, l.src) {
+						src += " where " + l.src
 					}
 				}
 				return true
 			})
 		}
+		for _, a := range args {
+			for _, f := range mentions(a) {
+				any = true
+				items = append(items, item{f, verb, guardOf(gs, f), "(FUnknown " + q(src) + ")"})
+			}
+		}
+		if !any {
+			unrecognised = append(unrecognised, src)
+		}
 	}
-	walk = func(n ast.Node, guarded bool, guard string) {
-		switch x := n.(type) {
-		case nil:
-			return
-		case *ast.BlockStmt:
-			for _, s := range x.List {
-				walk(s, guarded, guard)
+	// writeCall: is ce a call feeding the hasher? returns (verb, args, ok)
+	writeCall := func(ce *ast.CallExpr) (string, []ast.Expr, bool) {
+		fun := exprStr(ce.Fun)
+		if se, ok := ce.Fun.(*ast.SelectorExpr); ok && se.Sel.Name == "Write" && len(ce.Args) == 1 {
+			if id, ok := se.X.(*ast.Ident); ok && hasherVars[id.Name] {
+				if conv, ok := isCall(ce.Args[0], "[]byte"); ok && len(conv.Args) == 1 {
+					return "raw", conv.Args, true
+				}
+				if ap, ok := isCall(ce.Args[0], "fmt.Appendf"); ok && len(ap.Args) >= 2 && exprStr(ap.Args[0]) == "nil" {
+					if verb, ok := strLit(ap.Args[1]); ok {
+						return verb, ap.Args[2:], true
+					}
+				}
+				return "?", ce.Args, true
 			}
-		case *ast.IfStmt:
-			walk(x.Init, guarded, guard)
-			g := exprStr(x.Cond)
-			if guard != "" {
-				g = guard + " && " + g
+		}
+		if (fun == "fmt.Fprintf" || fun == "io.WriteString") && len(ce.Args) >= 2 {
+			if id, ok := ce.Args[0].(*ast.Ident); ok && hasherVars[id.Name] {
+				if fun == "io.WriteString" {
+					return "raw", ce.Args[1:], true
+				}
+				if verb, ok := strLit(ce.Args[1]); ok {
+					return verb, ce.Args[2:], true
+				}
+				return "?", ce.Args[1:], true
 			}
-			walk(x.Body, true, g)
-			if x.Else != nil {
-				walk(x.Else, true, "else:"+g)
+		}
+		return "", nil, false
+	}
+	reNZ := regexp.MustCompile(`^(\w+\.\w+) != 0 && (\w+\.\w+) != (\w+)$`)
+	reNE := regexp.MustCompile(`^(\w+\.\w+) != ""$`)
+	reLen := regexp.MustCompile(`^len\((\w+\.\w+)\) (?:> 0|!= 0)$`)
+	parseGuard := func(cond ast.Expr) guardInfo {
+		src := exprStr(cond)
+		g := guardInfo{src: src}
+		fieldOfStr := func(s string) (string, bool) {
+			e, err := parser.ParseExpr(s)
+			if err != nil {
+				return "", false
 			}
-		case *ast.ForStmt:
-			walk(x.Body, true, guard)
-		case *ast.RangeStmt:
-			// `for _, k := range keys(h.languageMap)`: the ranged expression reaches the writes in the body
-			ast.Inspect(x.X, func(m ast.Node) bool {
-				if se, ok := m.(*ast.SelectorExpr); ok {
-					if id, ok := se.X.(*ast.Ident); ok && hvars[id.Name] {
-						// only counts if the body writes something
-						hasCall := false
-						ast.Inspect(x.Body, func(k ast.Node) bool {
-							if _, ok := k.(*ast.CallExpr); ok {
-								hasCall = true
+			return exactField(e)
+		}
+		if m := reNZ.FindStringSubmatch(src); m != nil && m[1] == m[2] {
+			if f, ok := fieldOfStr(m[1]); ok {
+				if e, err := parser.ParseExpr(m[3]); err == nil {
+					if v, ok := evalInt(files, e); ok {
+						g.field, g.coq = f, fmt.Sprintf("(GIntNotZeroNotConst %d%%Z)", v)
+					}
+				}
+			}
+		} else if m := reNE.FindStringSubmatch(src); m != nil {
+			if f, ok := fieldOfStr(m[1]); ok {
+				g.field, g.coq = f, "GStrNonEmpty"
+			}
+		} else if m := reLen.FindStringSubmatch(src); m != nil {
+			if f, ok := fieldOfStr(m[1]); ok {
+				g.field, g.coq = f, "GLenPositive"
+			}
+		}
+		return g
+	}
+	var stmt func(s ast.Stmt, gs []guardInfo)
+	block := func(b *ast.BlockStmt, gs []guardInfo) {
+		for _, s := range b.List {
+			stmt(s, gs)
+		}
+	}
+	stmt = func(s ast.Stmt, gs []guardInfo) {
+		src := exprStr2(s)
+		switch x := s.(type) {
+		case *ast.AssignStmt:
+			if len(x.Lhs) == 1 && len(x.Rhs) == 1 {
+				if lhs, ok := x.Lhs[0].(*ast.Ident); ok && x.Tok == token.DEFINE {
+					if ce, ok := x.Rhs[0].(*ast.CallExpr); ok {
+						fun := exprStr(ce.Fun)
+						if strings.HasSuffix(fun, ".HashOptions") && len(ce.Args) == 0 && len(gs) == 0 {
+							hvars[lhs.Name] = true
+							return
+						}
+						if fun == "sha1.New" && len(ce.Args) == 0 && len(gs) == 0 && len(hasherVars) == 0 {
+							hasherVars[lhs.Name] = true
+							return
+						}
+						if fun == "slices.Sorted" && len(ce.Args) == 1 {
+							if mk, ok := isCall(ce.Args[0], "maps.Keys"); ok && len(mk.Args) == 1 {
+								if f, ok := exactField(mk.Args[0]); ok {
+									locals[lhs.Name] = local{"sortedKeys", []string{f}, src}
+									return
+								}
 							}
-							return true
-						})
-						if hasCall {
-							for _, f := range hsrc[se.Sel.Name] {
-								if !seen[f] {
-									seen[f] = true
-									writes = append(writes, write{f, "range", true, guard})
+						}
+					}
+					if fs := mentions(x.Rhs[0]); len(fs) > 0 {
+						// a value derived from option fields in a way this translator does not model
+						locals[lhs.Name] = local{"derived", fs, src}
+						return
+					}
+				}
+			}
+			taint(x, src)
+			unrecognised = append(unrecognised, src)
+		case *ast.ExprStmt:
+			if ce, ok := x.X.(*ast.CallExpr); ok {
+				if verb, args, ok := writeCall(ce); ok {
+					fmtWrite(verb, args, gs, src)
+					return
+				}
+			}
+			taint(x, src)
+			unrecognised = append(unrecognised, src)
+		case *ast.IfStmt:
+			if x.Init != nil || x.Else != nil {
+				taint(x, src)
+				unrecognised = append(unrecognised, src)
+				return
+			}
+			block(x.Body, append(append([]guardInfo{}, gs...), parseGuard(x.Cond)))
+		case *ast.RangeStmt:
+			// for _, k := range <sorted keys of map field m> { write(fmt, k, h.m[k]) }
+			if xi, ok := x.X.(*ast.Ident); ok && locals[xi.Name].kind == "sortedKeys" && x.Tok == token.DEFINE &&
+				(x.Key == nil || exprStr(x.Key) == "_") && x.Value != nil && len(x.Body.List) == 1 {
+				m := locals[xi.Name].fields[0]
+				k := exprStr(x.Value)
+				if es, ok := x.Body.List[0].(*ast.ExprStmt); ok {
+					if ce, ok := es.X.(*ast.CallExpr); ok {
+						if verb, args, ok := writeCall(ce); ok && len(args) == 2 && exprStr(args[0]) == k {
+							if ie, ok := args[1].(*ast.IndexExpr); ok && exprStr(ie.Index) == k {
+								if f, ok := exactField(ie.X); ok && f == m {
+									items = append(items, item{m, verb, guardOf(gs, m), "FSortedEntries"})
+									return
 								}
 							}
 						}
 					}
 				}
-				return true
-			})
-			walk(x.Body, true, guard)
-		default:
-			ast.Inspect(n, func(m ast.Node) bool {
-				if ce, ok := m.(*ast.CallExpr); ok {
-					// only calls that (transitively) feed the hasher: Write/Appendf/Fprintf/Sprintf/[]byte(...)
-					visitCall(ce, guarded, guard)
+			}
+			any := false
+			for _, f := range mentions(x) {
+				any = true
+				items = append(items, item{f, "range", guardOf(gs, f), "(FUnknown " + q(src) + ")"})
+			}
+			if !any {
+				unrecognised = append(unrecognised, src)
+			}
+		case *ast.ReturnStmt:
+			if len(x.Results) == 1 && len(gs) == 0 {
+				r := exprStr(x.Results[0])
+				for hv := range hasherVars {
+					if r == `fmt.Sprintf("%x", `+hv+`.Sum(nil))` || r == `hex.EncodeToString(`+hv+`.Sum(nil))` {
+						return
+					}
 				}
-				return true
-			})
+			}
+			taint(x, src)
+			unrecognised = append(unrecognised, src)
+		default:
+			taint(s, src)
+			unrecognised = append(unrecognised, src)
 		}
 	}
-	walk(gh.Body, false, "")
-	if len(writes) == 0 {
+	block(gh.Body, nil)
+	if len(gh.Body.List) == 0 {
+		die("GetHash(): empty body")
+	}
+	if _, ok := gh.Body.List[len(gh.Body.List)-1].(*ast.ReturnStmt); !ok {
+		unrecognised = append(unrecognised, "GetHash does not end in a return statement")
+	}
+	for i := range items {
+		if src, ok := tainted[items[i].field]; ok {
+			items[i].form = "(FUnknown " + q("field touched by: "+src) + ")"
+		}
+	}
+	for f, src := range tainted {
+		found := false
+		for _, it := range items {
+			found = found || it.field == f
+		}
+		if !found {
+			unrecognised = append(unrecognised, "field "+f+" used by: "+src)
+		}
+	}
+	sort.Strings(unrecognised)
+	if len(items) == 0 {
 		die("GetHash(): no hashed field recognised")
 	}
 
@@ -404,7 +633,7 @@ func main() {
 
 	var b strings.Builder
 	b.WriteString("(* GENERATED by translator/hashfields from index/builder.go + index/toc.go of the checked tree. Do not edit. *)\n")
-	b.WriteString("From Coq Require Import List String NArith ZArith.\nImport ListNotations.\nOpen Scope string_scope.\n\n")
+	b.WriteString("From Coq Require Import List String NArith ZArith.\nFrom ZV Require Import Model.HashProg.\nImport ListNotations.\nOpen Scope string_scope.\n\n")
 	b.WriteString("(* every field of struct index.Options, with its Go type *)\nDefinition options_fields_typed : list (string * string) := [\n")
 	for i, f := range optFields {
 		sep := ";"
@@ -422,39 +651,25 @@ func main() {
 		}
 		fmt.Fprintf(&b, "  (%s, %s)%s\n", q(p[0]), q(p[1]), sep)
 	}
-	b.WriteString("].\n\n(* GetHash(): Options fields that reach the hasher, in write order: (field, format, guarded by an if/loop) *)\n")
-	b.WriteString("Definition hash_writes : list (string * string * bool) := [\n")
-	for i, w := range writes {
+	b.WriteString("].\n\n(* GetHash(): every place where the value of an Options field is fed into the hasher, in write order:\n")
+	b.WriteString("   mkItem <Options field> <format of the write> <if-guard> <how the value is written>  (types: Model/HashProg.v) *)\n")
+	b.WriteString("Definition hash_prog : list hitem := [\n")
+	for i, it := range items {
 		sep := ";"
-		if i == len(writes)-1 {
+		if i == len(items)-1 {
 			sep = ""
 		}
-		fmt.Fprintf(&b, "  (%s, %s, %v)%s\n", q(w.field), q(w.verb), w.guarded, sep)
+		fmt.Fprintf(&b, "  mkItem %s %s %s %s%s\n", q(it.field), q(it.verb), it.guard, it.form, sep)
 	}
-	b.WriteString("].\nDefinition hashed_fields : list string := map (fun x => fst (fst x)) hash_writes.\n\n")
-	b.WriteString("(* the if-conditions guarding each write (empty = unconditional) *)\nDefinition hash_guards : list (string * string) := [\n")
-	for i, w := range writes {
-		sep := ";"
-		if i == len(writes)-1 {
-			sep = ""
+	b.WriteString("].\n(* statements of GetHash that have none of the recognised shapes (must be empty for the proofs) *)\n")
+	b.WriteString("Definition hash_prog_unrecognised : list string := [")
+	for i, u := range unrecognised {
+		if i > 0 {
+			b.WriteString("; ")
 		}
-		fmt.Fprintf(&b, "  (%s, %s)%s\n", q(w.field), q(w.guard), sep)
+		b.WriteString(q(u))
 	}
-	b.WriteString("].\n")
-	// fields written under `h.f != 0 && h.f != <the SetDefaults default of F>`: zero is hashed like the default
-	var zd []string
-	guardRe := regexp.MustCompile(`^(\w+)\.(\w+) != 0 && (\w+)\.(\w+) != (\w+)$`)
-	for _, w := range writes {
-		m := guardRe.FindStringSubmatch(w.guard)
-		if m == nil || m[1] != m[3] || m[2] != m[4] || !hvars[m[1]] || len(hsrc[m[2]]) != 1 || hsrc[m[2]][0] != w.field {
-			continue
-		}
-		cv, ok := intConst(files, m[5])
-		if dv, ok2 := defaults[w.field]; ok && ok2 && cv == dv {
-			zd = append(zd, q(w.field))
-		}
-	}
-	fmt.Fprintf(&b, "Definition zero_is_default_fields : list string := [%s].\n\n", strings.Join(zd, "; "))
+	b.WriteString("].\nDefinition hashed_fields : list string := map hi_field hash_prog.\n\n")
 	fmt.Fprintf(&b, "Definition index_format_version : N := %d%%N.\nDefinition feature_version : N := %d%%N.\nDefinition next_index_format_version : N := %d%%N.\n", ifv, fv, nfv)
 	b.WriteString("(* readVersions: (IndexFormatVersion, FeatureVersion) *)\nDefinition read_versions : list (N * N) := [")
 	for i, r := range rvs {
